@@ -300,7 +300,7 @@ def configs(tier):
     add("cumulative", "cumsum", frame=True, col="w")
     for com in (0, 1, 3):
         add("ewm", "mean", "expanding", com)
-    add("ewm", "mean", "expanding", 1, frame=True, col="w")
+    add("ewm", "mean", "expanding", 1, frame=True, col="v")      # (column w has missing values: outside the ewm model)
     return C
 
 
